@@ -21,6 +21,10 @@ type c06case struct {
 	wantCB      *bool    // Undo: wrapped callback must (not) run
 	wantBlocked []string // block check: ids Blocked must receive (multiset)
 	following   *bool    // Accept: following must (not) change
+	// legit, if set, is a LEGITIMATE activity carrying the same id; it is first delivered to another
+	// local inbox of the same Actor (an id that was verified once must not vouch for a later request)
+	legit      M
+	afterLegit bool
 }
 
 func boolp(b bool) *bool { return &b }
@@ -100,8 +104,13 @@ func c06cases(thorough bool) []c06case {
 					if len(objs) == 1 {
 						ov = objs[0]
 					}
+					okObj := interface{}(Emb("Note", fmt.Sprintf("https://%s/n/legit", actHost), "content", "legit"))
+					if typ == "Delete" {
+						okObj = fmt.Sprintf("https://%s/n/legit", actHost)
+					}
 					cs = append(cs, c06case{family: "origin", name: fmt.Sprintf("%s activity@%s objects=%v %s", typ, actHost, names, form),
-						body: Doc(typ, "https://"+actHost+"/a/1", "actor", Carol, "object", ov), mustRefuse: true, noWrites: []string{"DB.Update", "DB.Delete"}})
+						body: Doc(typ, "https://"+actHost+"/a/1", "actor", Carol, "object", ov), mustRefuse: true, noWrites: []string{"DB.Update", "DB.Delete"},
+						legit: Doc(typ, "https://"+actHost+"/a/1", "actor", Carol, "object", okObj)})
 				}
 			}
 		}
@@ -212,7 +221,8 @@ func c06cases(thorough bool) []c06case {
 					objs = L{mk(okDoc), mk(origDoc)}
 				}
 				c := c06case{family: "undo", name: fmt.Sprintf("Undo actors=%s object-%s n=%d", rel.name, form, n),
-					body: Doc("Undo", RAct, "actor", val1(rel.undo), "object", val1(objs)), wantCB: boolp(rel.ok), mustRefuse: !rel.ok}
+					body: Doc("Undo", RAct, "actor", val1(rel.undo), "object", val1(objs)), wantCB: boolp(rel.ok), mustRefuse: !rel.ok,
+					legit: Doc("Undo", RAct, "actor", val1(rel.undo), "object", mk(okDoc))}
 				c.tweak = func(a *ap.App) {
 					a.Callbacks = ap.CBWrapped
 					a.PutRemote(undone, origDoc)
@@ -309,7 +319,15 @@ func jsonNormV(v interface{}) interface{} { return deepCopy(v) }
 func C06(tier string) int {
 	res := NewResult("C06", tier, "exploration")
 	cases := c06cases(res.Thorough())
-	res.Rule = fmt.Sprintf("(a) Update/Delete with the activity id on a host (default and non-default port) and every sequence of 1..%d object ids over hosts {same, other domain, other port, explicit default port, sub-domain, upper-case, parent domain}, embedded / IRI / embedded Link or Mention carrying the id plus an href on the activity's own host, keeping the sequences that contain a host that must be refused; (b) Accept with the stored Follow in {ours, ours with two objects, ours with two actors, absent, a Note, another actor's, lacking the accepting actor, a Like / Block / Offer / Create of the local actor naming the peer} x Follow embedded / by IRI (the peer's copy always supports its claim) x 10 accepting-actor sets (IRI, embedded actor, Link / Mention with id and differing href, Mention with href only); (c) Undo with actor sets equal / superset / subset / disjoint / overlapping, embedded / IRI, 1..2 undone activities; (c') the same with Link-spelled actors whose id and href disagree; (d) every sequence of 1..3 activity actors (IRI / embedded actor / Link with id and another href / Mention with href only) x blocked subsets, and an erroring block check; %d requests; oracle: refusal implies the request fails and the state differs from the initial one at most by the inbox entry", map[bool]int{false: 2, true: 3}[res.Thorough()], len(cases))
+	for _, c := range append([]c06case(nil), cases...) {
+		if c.legit != nil && c.mustRefuse {
+			v := c
+			v.afterLegit = true
+			v.name += " [after a legitimate activity with the same id at another inbox]"
+			cases = append(cases, v)
+		}
+	}
+	res.Rule = fmt.Sprintf("(a) Update/Delete with the activity id on a host (default and non-default port) and every sequence of 1..%d object ids over hosts {same, other domain, other port, explicit default port, sub-domain, upper-case, parent domain}, embedded / IRI / embedded Link or Mention carrying the id plus an href on the activity's own host, keeping the sequences that contain a host that must be refused; (b) Accept with the stored Follow in {ours, ours with two objects, ours with two actors, absent, a Note, another actor's, lacking the accepting actor, a Like / Block / Offer / Create of the local actor naming the peer} x Follow embedded / by IRI (the peer's copy always supports its claim) x 10 accepting-actor sets (IRI, embedded actor, Link / Mention with id and differing href, Mention with href only); (c) Undo with actor sets equal / superset / subset / disjoint / overlapping, embedded / IRI, 1..2 undone activities; (c') the same with Link-spelled actors whose id and href disagree; (d) every sequence of 1..3 activity actors (IRI / embedded actor / Link with id and another href / Mention with href only) x blocked subsets, and an erroring block check; %d requests; every refused Update / Delete / Undo again after a LEGITIMATE activity carrying the same id was accepted at another local inbox of the same Actor; oracle: refusal implies the request fails and the state differs from the initial one at most by the inbox entry", map[bool]int{false: 2, true: 3}[res.Thorough()], len(cases))
 	res.Assumptions = []string{"hosts differing only in case or by an explicit default port may be accepted or refused", "positive application for equal hosts is C04's"}
 	var mu sync.Mutex
 	chunk := 100
@@ -329,9 +347,13 @@ func C06(tier string) int {
 			c := c
 			sc := &Scenario{Name: c.name, Kind: ap.Both, Entry: "PostInbox", URL: inbox(Alice), Body: c.body, Tweak: c.tweak}
 			a := sc.World()
+			if c.afterLegit {
+				(&Scenario{Name: c.name + "/legit-first", Kind: ap.Both, Entry: "PostInbox", URL: inbox(Bob), Body: c.legit}).On(a, nil)
+			}
+			logStart := len(a.Log)
 			before := RefOf(a)
 			out := sc.On(a, nil)
-			rep := M{"check": "C06", "family": c.family, "case": c.name, "body": c.body}
+			rep := M{"check": "C06", "family": c.family, "case": c.name, "body": c.body, "after_legit_same_id": c.afterLegit}
 			if out.Panic != nil {
 				outc["panic(C11)"]++
 				continue
@@ -371,7 +393,7 @@ func C06(tier string) int {
 				}
 			}
 			for _, op := range c.noWrites {
-				for _, cl := range a.Log {
+				for _, cl := range a.Log[logStart:] {
 					if cl.Op == op {
 						bad("applied-"+op, fmt.Sprintf("%s(%s) was called", op, cl.Arg))
 					}
@@ -395,7 +417,7 @@ func C06(tier string) int {
 			}
 			if c.wantCB != nil {
 				ran := false
-				for _, cl := range a.Log {
+				for _, cl := range a.Log[logStart:] {
 					if cl.Op == "Fed.cb.Undo" {
 						ran = true
 					}
@@ -407,7 +429,7 @@ func C06(tier string) int {
 			if c.wantBlocked != nil {
 				var got []string
 				blockedAt, firstSide := -1, -1
-				for i, cl := range a.Log {
+				for i, cl := range a.Log[logStart:] {
 					if cl.Op == "Fed.Blocked" && blockedAt < 0 {
 						blockedAt = i
 						got = strings.Fields(cl.Arg)
